@@ -335,6 +335,7 @@ package nbs
 //@ extern (*github.com/dolthub/fslock.Lock).LockWithTimeout as verif_x_fslock_LockWithTimeout
 //@   modifies nothing
 //@   ghost_set verif_ghost.mLockHeld = (err == nil)
+//@   ghost_set verif_ghost.jLockHeld = (err == nil)
 //@ extern (*github.com/dolthub/fslock.Lock).Unlock as verif_x_fslock_Unlock
 //@   modifies nothing
 //@   ghost_set verif_ghost.mLockHeld = false
@@ -678,3 +679,96 @@ package nbs
 //@   property C07
 //@   modifies nothing
 //@   ghost_set verif_ghost.dMtCount = result
+
+// ---- only one process writes a database directory; a read-only open never modifies a file (C41)
+
+//@ extern (*github.com/dolthub/fslock.Lock).TryLock as verif_x_fslock_TryLock
+//@   modifies nothing
+//@   ghost_set verif_ghost.jLockHeld = (err == nil)
+
+// errors.Is: a nil error matches nothing; an error matches itself (package documentation)
+//@ extern errors.Is as verif_x_errors_Is
+//@   modifies nothing
+//@   ensures err == nil ==> !ok
+//@   ensures err == target && err != nil ==> ok
+
+//@ extern github.com/dolthub/fslock.New as verif_x_fslock_New
+//@   modifies nothing
+//@   ensures err == nil ==> l != nil
+
+// newJournalLock: exclusive access is reported exactly when the LOCK file was taken; otherwise the caller gets no
+// lock and read-only mode, or (fail-fast) an error
+//@ func newJournalLock
+//@   property C41
+//@   ensures  result2 == nil && result1 == chunks.ExclusiveAccessMode_Exclusive ==> verif_ghost.jLockHeld && result0 != nil
+//@   ensures  result0 != nil ==> verif_ghost.jLockHeld && result1 == chunks.ExclusiveAccessMode_Exclusive && result2 == nil
+//@   ensures  result2 == nil && !verif_ghost.jLockHeld ==> result0 == nil && result1 == chunks.ExclusiveAccessMode_ReadOnly
+//@   ensures  failOnTimeout && !verif_ghost.jLockHeld ==> result2 != nil
+//@   also_modifies verif_ghost.jLockHeld, verif_ghost.mLockHeld
+
+// journalManifest.readOnly: read-only exactly when no lock is held (event marker for callers)
+//@ func (*journalManifest).readOnly
+//@   property C41
+//@   modifies nothing
+//@   ensures result == (jm.lock == nil)
+//@   ghost_set verif_ghost.jReadOnly = result
+
+// a read-only journal manifest never reaches the manifest-file update protocol
+//@ func (*journalManifest).Update
+//@   property C41
+//@   requires !verif_ghost.mTempSynced && !verif_ghost.mValidated && !verif_ghost.mRenamed && !verif_ghost.mDirSynced
+//@   at call updateWithChecker: assert jm.lock != nil
+//@ func (*journalManifest).UpdateGCGen
+//@   property C41
+//@   requires !verif_ghost.mTempSynced && !verif_ghost.mValidated && !verif_ghost.mRenamed && !verif_ghost.mDirSynced
+//@   at call updateWithChecker: assert jm.lock != nil
+
+// processJournalRecords: the journal file is truncated / fsynced only when the caller allowed it
+//@ func processJournalRecords
+//@   property C41
+//@   at call Truncate: assert tryTruncate
+//@   at call Sync: assert tryTruncate
+
+// bootstrapJournal: every step that may write is handed the caller's canWrite, and its own writes are guarded by it
+//@ func (*journalWriter).bootstrapJournal
+//@   property C41
+//@   at call loadJournalIndex: assert arg2:bool == canWrite
+//@   at call processJournalRecords: assert arg3:bool == canWrite
+//@   at call flushIndexRecord: assert canWrite
+//@ func (*journalWriter).bootstrapJournal$1
+//@   property C41
+//@   at call writeIndexLookup: assert canWrite
+
+// loadJournalIndex: read-only mode opens the index O_RDONLY, creates no writer and passes canWrite on
+//@ func (*journalWriter).loadJournalIndex
+//@   property C41
+//@   at call OpenFile: assert canWrite || arg1:int == os.O_RDONLY
+//@   at call NewWriterSize: assert canWrite
+//@   at call readJournalIndex: assert arg2:bool == canWrite
+//@   at call corruptIndexRecovery: assert arg1:bool == canWrite
+
+//@ func (*journalWriter).corruptIndexRecovery
+//@   property C41
+//@   at call truncateIndex: assert canWrite
+
+// bootstrapJournalWriter: creating the journal, committing a root record into it and truing up the manifest happen
+// only when the backing manifest is writable (canCreate is exactly !readOnly()); bootstrapJournal gets the same flag
+//@ func (*ChunkJournal).bootstrapJournalWriter
+//@   property C41
+//@   requires !verif_ghost.jBufRoot && !verif_ghost.jFileRoot && !verif_ghost.jDurableRoot && !verif_ghost.mTempSynced && !verif_ghost.mValidated && !verif_ghost.mRenamed && !verif_ghost.mDirSynced
+//@   at call createProtectedJournalWriter: assert !verif_ghost.jReadOnly
+//@   at call commitRootHash: assert !verif_ghost.jReadOnly
+//@   at call bootstrapJournal: assert arg2:bool == !verif_ghost.jReadOnly
+//@   also_modifies verif_ghost.jReadOnly
+
+//@ func trueUpBackingManifest
+//@   property C41
+//@   requires !verif_ghost.mTempSynced && !verif_ghost.mValidated && !verif_ghost.mRenamed && !verif_ghost.mDirSynced
+//@   at call Update: assert !verif_ghost.jReadOnly
+//@   also_modifies verif_ghost.jReadOnly
+
+// readJournalIndex: the on-disk index is rewound only when writing is allowed (the two goroutines it starts are not
+// modelled: their bodies are outside the subset and are treated as unknown calls)
+//@ func (*journalWriter).readJournalIndex
+//@   property C41
+//@   at call truncateIndex: assert canWrite
